@@ -269,3 +269,5 @@ m('f7_regression_state_word_after_readback_c05', 'C05', 'individual.py',
   "        individual.state = Individual.from_string(dictionary['state'])\n", "        individual.state = dictionary['state']\n")
 m('f7_regression_state_word_after_readback_c07', 'C07', 'individual.py',
   "        individual.state = Individual.from_string(dictionary['state'])\n", "        individual.state = dictionary['state']\n")
+m('f8_regression_ids_read_back_given_out_again', 'C10', 'individual.py',
+  "        Individual.counter = max(Individual.counter, individual.id + 1)\n", "")
